@@ -19,7 +19,7 @@ namespace TapkeeVerif.Connected
 open TapkeeVerif.Knn
 
 /-- **`isConnected_iff`** : whenever the lists can be read in bounds, `is_connected` answers (the loops
-    terminate: `dfs_fuel_suffices` is part of the proof) and the answer is strong connectivity of the
+    terminate: `dfs_total` / `reachesAll_total` is part of the proof) and the answer is strong connectivity of the
     followed edges. -/
 theorem isConnected_iff {N : Nat} {g : Graph} (hN : 0 < N) (hoob : isConnected N g ≠ .oob) :
     ∃ b, isConnected N g = .ok b ∧ (b = true ↔ StronglyConnected g N) :=
